@@ -590,7 +590,9 @@ class Counters(EngineBase):
                     ctags.append("subsecond_total")
                 if tot == 0:
                     ctags.append("zero_total")
-                if nf >= 9 and d[8] > d[0]:
+                if (nf >= 9 and d[8] > d[0]) or (nf >= 10 and d[9] > d[1]):
+                    # inconsistent kernel counters (only possible together
+                    # with a counter going backwards): range-checked only
                     ctags.append("guest_gt_user")
                 if kind == "cpu_percent":
                     exp = float(Fraction(100 * busy, tot)) if tot > 0 else 0.0
